@@ -392,6 +392,8 @@ def run(repo, rep, tier):
                 r5.sites += 1
                 a = c.args[0]
                 lower = None
+                from ..cfg import flag_facts
+                fs = list(fs) + flag_facts(post.node, st, fs)
                 for t, pol in fs:
                     if isinstance(t, ast.Compare) and len(t.ops) == 1 and \
                             norm(t.left) == norm(a) and \
